@@ -40,7 +40,7 @@ def run_once(mod, hname, target, inputs, seed):
             for name, ok in spec.S.results:
                 if not ok:
                     return "fails", "obligation false: " + name
-            return "not-evaluable", "%s: %s" % (type(e).__name__, e)
+            return "raised", "%s: %s\n%s" % (type(e).__name__, e, traceback.format_exc()[-500:])
         if target.endswith("no-unexpected-exception"):
             return "fails", "%s: %s" % (type(e).__name__, e)
         # an exception before the target obligation: cannot evaluate it
@@ -103,6 +103,7 @@ def main(argv):
         tries.append(("search-%d" % k, perturb(rng, inputs, 0.05 if k < n_search // 2 else 0.5)))
     last = ("holds", "")
     evaluated = 0
+    raised = None
     for n_, (tag, inp) in enumerate(tries):
         sd = seed0 if tag == "model" else seed0 + n_
         st, msg = run_once(mod, hname, target, inp, sd)
@@ -110,6 +111,13 @@ def main(argv):
             last = (st, msg)
         if st == "holds":
             evaluated += 1
+        if st == "raised" and raised is None:
+            from pyvc import spec as _sp
+            full = dict(getattr(_sp.S, "drawn", {}))
+            full.update(inp)
+            raised = dict(status="fails", how=tag, inputs=full, seed=sd, obligation="no-unexpected-exception",
+                          message="obligation false: no-unexpected-exception (the real code raised on inputs that satisfy every "
+                                  "assumption, while the same harness runs to completion on other inputs): " + msg)
         if st == "fails":
             from pyvc import spec
             full = dict(getattr(spec.S, "drawn", {}))
@@ -119,6 +127,9 @@ def main(argv):
                 out["obligation"] = msg[len("obligation false: "):].split(" (")[0].split("\n")[0]
             print(json.dumps(out, default=str))
             return 1
+    if raised is not None and evaluated >= 3 and target == "*" and not os.environ.get("PYVC_CROSSCHECK_RUN"):
+        print(json.dumps(raised, default=str))
+        return 1
     print(json.dumps(dict(status=last[0], message=last[1], tried=len(tries), evaluated=evaluated), default=str))
     return 0
 
